@@ -1048,7 +1048,11 @@ def kept_params(f):
                 fresh.add(norm(e.kid(0)))
     if not fresh:
         return None
-    params = {("v", p["name"], p["id"]): p["name"] for p in f.params if (u.types.get(p["ty"]) or {}).get("kind") == "ptr"}
+    def data_ptr(ty):
+        t = u.types.get(ty) or {}
+        return t.get("kind") == "ptr" and (u.types.get(t.get("pointee", "")) or {}).get("kind") not in ("func", "function") and "(" not in str(t.get("pointee", ""))
+    # pointers to data only: a callback (function pointer) is not memory that could fail to outlive the call
+    params = {("v", p["name"], p["id"]): p["name"] for p in f.params if data_ptr(p["ty"])}
     kept = set()
     built = False
     for e in f.all_elems():
